@@ -127,7 +127,9 @@ func rangeCases(size int64) []rangeCase {
 	var cs []rangeCase
 	add := func(class, h string) { cs = append(cs, rangeCase{class, h}) }
 	nums := []string{"0", "1", "2", "3", fmt.Sprint(size - 1), fmt.Sprint(size), fmt.Sprint(size + 1), fmt.Sprint(2*size + 3),
-		"9223372036854775807", "9223372036854775808", "18446744073709551616", "1000000000000000000000000000000", "00", "007"}
+		"9223372036854775807", "9223372036854775808", "18446744073709551616", "1000000000000000000000000000000", "00", "007",
+		// 1*DIGIT admits leading zeros: positions padded beyond the 19 digits of the largest int64 keep their value
+		"00000000000000000002", "000000000000000000000", fmt.Sprintf("%020d", size-1), fmt.Sprintf("%023d", size)}
 	seen := map[string]bool{}
 	var ns []string
 	for _, n := range nums {
@@ -228,7 +230,7 @@ func checkRangeResp(obj []byte, resp *gw.Resp, want []rangeOutcome, isHead bool)
 // C13: exhaustive product object size × Range string, end-to-end GET and HEAD,
 // plus direct ParseGetObjectRange on the same strings with larger sizes.
 func C13(r *ck.Run) {
-	r.Rule("every Range string of the grammar menu (closed/open/suffix over boundary numbers, multi-range, other units, lax numerals, garbage) × every object size (and a directory object); plus every ordered pair of ranged reads at the backend seam opened first and drained afterwards in both orders; a case is distinct by (size, key, header, method); non-trivial = header present")
+	r.Rule("every Range string of the grammar menu (closed/open/suffix over boundary numbers incl. positions zero-padded to 20-23 digits, multi-range, other units, lax numerals, garbage) × every object size (and a directory object); plus every ordered pair of ranged reads at the backend seam opened first and drained afterwards in both orders; a case is distinct by (size, key, header, method); non-trivial = header present")
 	r.Assume("suffix ranges may be supported (206 last n bytes) or unsupported (200 whole object); numbers that do not fit 63 bits may count as beyond-the-end (416) or malformed (200); blanks in numerals may be rejected (200) or ignored; a '+' in a numeral makes the range malformed (200)")
 	sizes := []int64{0, 1, 2, 5, 10}
 	if r.Thorough() {
